@@ -137,6 +137,9 @@ class LitGen:
                 body = 'a'
         if pre == 'u8' and body.startswith('\\x') and int(body[2:], 16) > 0x7f:
             body = 'a'
+        if pre == 'u8' and body.startswith('\\') and body[1:].isdigit() and int(body[1:], 8) > 0x7f:
+            # u8 character literals are char in C++17 (the reference's -std) and char8_t from C++20 (cppcheck's default)
+            body = 'a'
         return Node('leaf', txt=pre + "'" + body + "'", cat='I', flags=('lit', 'chr') + ((pre,) if pre else ()))
 
     def float_literal(self):
